@@ -10,7 +10,7 @@
    evaluated on the implementation in exact rational arithmetic (lib/p_C10.py). *)
 From SV Require Import Ops LinAlg BK.
 From mathcomp Require Import all_ssreflect all_algebra.
-From SV Require Import OpsF BKPf BKElim.
+From SV Require Import OpsF BKPf BKElim BKPerm.
 Set Implicit Arguments. Unset Strict Implicit. Unset Printing Implicit Defensive.
 Import GRing.Theory Num.Theory.
 Local Open Scope ring_scope.
@@ -111,6 +111,26 @@ Theorem C10_solve_2x2 : forall (F : rcfType) (e11 e21 e22 b1 b2 : F), e11 * e22 
   e11 * x1 + e21 * x2 = b1 /\ e21 * x1 + e22 * x2 = b2.
 Proof. move=> F e11 e21 e22 b1 b2; exact: solve_2x2_spec. Qed.
 Print Assumptions C10_solve_2x2.
+
+(* the permutation bracket of solve(): the interchanges recorded by compute() are applied to b in order before the sweeps
+   and undone in reverse order after them; the second pass is the exact inverse of the first - for EVERY scalar instance
+   (binary64 included) - whenever the permutation vector has one entry per row, each encoding a row index below n
+   (p for a 1x1 pivot, -p-1 for a 2x2 pivot); the C-bit run compares that vector with BKLDLT's entry by entry *)
+Theorem C10_solve_permutation_bracket : forall (o : Ops) (n : nat) (pm : list BinNums.Z) (x : list (T o)), size x = n -> perm_ok n pm ->
+  List.fold_left (fun x pr => vswap o x (fst pr) (snd pr)) (List.rev (permc pm))
+    (List.fold_left (fun x pr => vswap o x (fst pr) (snd pr)) (permc pm) x) = x.
+Proof. by move=> o n pm x sx ok; apply: bk_solve_permutation_bracket; rewrite sx; apply: permc_in_range. Qed.
+Print Assumptions C10_solve_permutation_bracket.
+
+(* one interchange moves exactly the two named entries (what the sweeps between the two passes see) *)
+Theorem C10_interchange_entries : forall (o : Ops) (x : list (T o)) (i j k : nat), (i < size x)%N -> (j < size x)%N ->
+  vnth o (vswap o x i j) k = if k == j then vnth o x i else if k == i then vnth o x j else vnth o x k.
+Proof. move=> o x i j k; exact: permute_entry. Qed.
+Print Assumptions C10_interchange_entries.
+
+(* non-vacuity of the bracket: the vector [1; -1; 2] (row 0 <-> 1 as a 1x1 interchange, row 2 a 2x2 pivot with row 2) is perm_ok *)
+Example C10_bracket_nonvacuous : perm_ok 3 [:: BinNums.Zpos BinNums.xH; BinNums.Zneg BinNums.xH; BinNums.Zpos (BinNums.xO BinNums.xH)].
+Proof. by split=> // -[|[|[|i]]]. Qed.
 
 (* lower and upper triangle of one symmetric matrix: identical packed copy, hence identical
    factorization and solution - for EVERY scalar instance (the binary64 one included) *)
